@@ -93,6 +93,15 @@ CHECKS = {
             "Values come from a boundary palette (plus seed values), not all 2^32; the Rust side is driven through the "
             "verification harness' thin command layer.",
             "DESIGN.md section 4, C08"),
+    "C09": ("exploration",
+            "exhaustive enumeration of every instruction text the disassembler can produce for the structural encoding space; "
+            "each text is assembled by the real Assembler and the result re-disassembled (metamorphic round trip)",
+            "All structural shapes (prefix set; all 16 prefixes and two operand fills in thorough) are rendered with hexadecimal "
+            "literals and register names and assembled; success, equal text, equal length, structurally equal lifted IL and a "
+            "second-round fixed point are required. No reference model: the disassembler is its own oracle.",
+            "Operand values come from two fills; redundant PRE bytes in front of instructions without internal-memory operands are "
+            "out of scope; five root-cause classes are recorded as known findings (mostly pinned by the repository's assembler tests).",
+            "DESIGN.md section 4, C09"),
     "C11": ("model_checking",
             "explicit-state exploration of store/load histories on the real Python PCE500Memory and Rust MemoryImage for a "
             "product of memory configurations, each transition judged against the implementation's own pre-state with a "
